@@ -6,7 +6,7 @@ import ast
 from vlib.core import AnalysisError, Report
 from vlib.schema import dict_keys, returned_dicts, subscripted_keys, typeddict_keys
 from vlib.flow import parent_map
-from vlib.match import FI, X, atoms, calls, closure, facts, has_call, nodes
+from vlib.match import FI, X, atoms, atoms_via, calls, closure, facts, has_call, inlined_bodies2, nodes
 from vlib.srcindex import SourceIndex, attr_chain, const_str, unparse, walk_no_nested
 
 EXPLANATION = (
@@ -47,19 +47,21 @@ def run(rep: Report, tier: str) -> None:
 	# reader: every data[<key>] read in deserialize, with the truth of the discriminator test known at that point
 	dparam = d.params()[2] if len(d.params()) > 2 else 'data'
 	dx = X(d)
-	dfi = FI(d)
+	bodies = inlined_bodies2(d, 2, full=True)  # deserialize and the private helpers it calls (parameters replaced by the call arguments)
+	dfi = ast.Module(body=[b for b, _ in bodies], type_ignores=[])
 	reads: list[tuple[str, str | None, bool | None, ast.AST]] = []  # key, tested value, polarity, node
 	tested_vals: set[str] = set()
-	for n in nodes(dx, ast.Subscript):
-		if unparse(n.value) != dparam or const_str(n.slice) is None:
-			continue
-		disc = [(const_str(a.comparators[0]), p_) for a, p_ in atoms(dx, n) if isinstance(a, ast.Compare) and len(a.ops) == 1 and isinstance(a.ops[0], ast.Eq) and unparse(a.left) == f"{dparam}['class']" and const_str(a.comparators[0]) is not None]
-		for v_, _ in disc:
-			tested_vals.add(v_)
-		reads.append((const_str(n.slice), disc[0][0] if disc else None, disc[0][1] if disc else None, n))
-	for n in nodes(dx, ast.Compare):
-		if len(n.ops) == 1 and isinstance(n.ops[0], (ast.Eq, ast.NotEq)) and unparse(n.left) == f"{dparam}['class']" and const_str(n.comparators[0]) is not None:
-			tested_vals.add(const_str(n.comparators[0]))
+	for body, chain in bodies:
+		for n in nodes(body, ast.Subscript):
+			if unparse(n.value) != dparam or const_str(n.slice) is None:
+				continue
+			disc = [(const_str(a.comparators[0]), p_) for a, p_ in atoms_via(body, chain, n) if isinstance(a, ast.Compare) and len(a.ops) == 1 and isinstance(a.ops[0], ast.Eq) and unparse(a.left) == f"{dparam}['class']" and const_str(a.comparators[0]) is not None]
+			for v_, _ in disc:
+				tested_vals.add(v_)
+			reads.append((const_str(n.slice), disc[0][0] if disc else None, disc[0][1] if disc else None, n))
+		for n in nodes(body, ast.Compare):
+			if len(n.ops) == 1 and isinstance(n.ops[0], (ast.Eq, ast.NotEq)) and unparse(n.left) == f"{dparam}['class']" and const_str(n.comparators[0]) is not None:
+				tested_vals.add(const_str(n.comparators[0]))
 	if len(tested_vals) != 1:
 		raise AnalysisError(f'deserialize no longer branches on {dparam}[\'class\'] == <one constant> (tests: {sorted(tested_vals)})')
 	tested = next(iter(tested_vals))
@@ -93,11 +95,19 @@ def run(rep: Report, tier: str) -> None:
 		if cv:
 			wdicts[cv] = dct
 
-	def value_keys(e: ast.AST) -> set[str]:
-		"""data keys that can supply the value (for a conditional expression only the branches do; the test may consult other keys)"""
+	def value_keys(e: ast.AST, depth: int = 0) -> set[str]:
+		"""data keys that can supply the value (for a conditional expression only the branches do; the test may consult other keys); a name bound by a
+		destructuring assignment (`module_path, full_path = ModuleDSN.parsed(data['types'])`) is supplied by the keys of the assigned value"""
 		if isinstance(e, ast.IfExp):
-			return value_keys(e.body) | value_keys(e.orelse)
-		return subscripted_keys(e, dparam)
+			return value_keys(e.body, depth) | value_keys(e.orelse, depth)
+		out = set(subscripted_keys(e, dparam))
+		if depth < 3:
+			names = {x.id for x in ast.walk(e) if isinstance(x, ast.Name) and isinstance(x.ctx, ast.Load)}
+			for a in nodes(dfi, ast.Assign):
+				tnames = {x.id for t in a.targets for x in ast.walk(t) if isinstance(x, ast.Name)}
+				if tnames & names and isinstance(a.targets[0], (ast.Tuple, ast.List)):
+					out |= value_keys(a.value, depth + 1)
+		return out
 
 	if 'Reflection' in wdicts:
 		wd = wdicts['Reflection']
@@ -121,7 +131,7 @@ def run(rep: Report, tier: str) -> None:
 		if len(inst) != 1 or len(inst[0].args) != 2:
 			rw.skip('read:Symbol.instantiate', d.where, 'Symbol.instantiate(traits, types) not found in deserialize')
 		else:
-			rw.check(subscripted_keys(inst[0].args[1], dparam) == {'types'}, 'read:Symbol.instantiate', (SER, inst[0].lineno), f'Symbol.instantiate must be called with the class node restored from data[\'types\']: `{unparse(inst[0].args[1])[:120]}`')
+			rw.check(value_keys(inst[0].args[1]) == {'types'}, 'read:Symbol.instantiate', (SER, inst[0].lineno), f'Symbol.instantiate must be called with the class node restored from data[\'types\']: `{unparse(inst[0].args[1])[:120]}`')
 	pm_d = parent_map(dfi)
 	for k in ('types', 'node', 'decl'):
 		wv = [v for dct in wdicts.values() for kk, v in zip(dct.keys, dct.values) if const_str(kk) == k]
